@@ -239,6 +239,42 @@ def attemptAt (env : Env) (l : Limits) (now : Int) (r : Rec) (x : Raised) (dur l
   { time := now, retry := r.retries, out := o, endTime := e, merged := e + lag,
     recAfter := withOutcome r (e + lag) o }
 
+/-! ### Records written by somebody else: how the stored timestamps are spelled
+
+  kopf writes TZ-aware UTC timestamps (`2020-01-01T00:00:00.000000+00:00`); `now` is TZ-aware as well
+  (`_get_basetime`: `datetime.now(tz=utc)`). `parse_iso8601` calls `iso8601.parse_date(val,
+  default_timezone=None)`: a string WITHOUT an offset (what `datetime.utcnow().isoformat()` of the kopf
+  releases before the TZ-aware clock wrote, and what kopf's own tests feed: `started='2000-01-01T00:00:00'`)
+  stays TZ-naive, and Python refuses to compare or subtract a naive and an aware datetime (TypeError).
+  `Z` and numeric offsets are parsed as aware and behave like `+00:00` (same instant). -/
+
+/-- Which of the two timestamps that decide anything came back TZ-naive from the storage. -/
+structure Spelling where
+  startedNaive : Bool
+  delayedNaive : Bool
+  deriving DecidableEq, Repr
+
+/-- One cycle's dealing with one handler, on a record re-read from the storage. -/
+inductive StoredStep where
+  | raised                -- TypeError escapes `execute_handlers_once`: the cycle fails, nothing is stored
+  | idle (done : Bool)    -- not awakened
+  | att (a : Attempt)
+  deriving DecidableEq, Repr
+
+/-- The gate and one execution, with the places where the timestamps are touched in their order:
+    `sleeping` = `not finished and delayed is not None and delayed > now` (the comparison raises);
+    in `execute_handler_once` `state.runtime` = `now - started` is evaluated by the strict timeout check
+    (only if `timeout` is set), else after the retries check as the kwarg `runtime=` of the call —
+    inside the `try`, so it lands in `except Exception`, whose first statement (the look-ahead)
+    evaluates `state.runtime` again and raises out of the function. Only a handler that is refused
+    by `retries` alone never looks at `started`. -/
+def stepStored (env : Env) (l : Limits) (sp : Spelling) (r : Rec) (now : Int) (x : Raised) (dur : Nat) : StoredStep :=
+  if r.finished then .idle true
+  else if sp.delayedNaive && r.delayed.isSome then .raised
+  else if r.sleeping now then .idle false
+  else if sp.startedNaive && (l.timeout.isSome || !retriesOut l r.retries) then .raised
+  else .att (attemptAt env l now r x dur 0)
+
 /-- The whole history of one handler: cycles at arbitrary times, gated by `awakened`. -/
 def run (env : Env) (l : Limits) : Int → Rec → List Step → List Ev
   | _, _, [] => []
@@ -317,32 +353,63 @@ def timerAt (now idleUntil : Int) : Int := if idleUntil > now then idleUntil els
 def timerState (r : Rec) (now t : Int) : Rec :=
   if (timerReset r now).retries = 0 then fromScratch t else timerReset r now
 
-/-- The whole life of ONE `_timer` task, one script element per iteration of its loop (the element is
-    not used when nothing is awakened). A new retry series starts after a SUCCEEDED one only; a series
-    that has failed for good is kept, the gate of `execute_handlers_once` finds nothing awakened in
-    it, and the loop only keeps sleeping its interval. -/
-def timerRun (env : Env) (l : Limits) (interval : Nat) (sharp : Bool) (idleUntil : Int) :
-    Int → Rec → List (Raised × Nat) → List Ev
+/-- The whole life of ONE `_timer` task, one script element per iteration of its loop: what the function
+    does if it is called (`x`, `dur`; not used when nothing is awakened) and `idleUntil` =
+    `memory.idle_reset_time + handler.idle` as the iteration's idle wait found it when it let the
+    iteration through (the object may be changed at any time — also in the middle of a retry series —
+    and every change moves `idle_reset_time`; no `idle=`: any value `≤` the spawn time). A new retry
+    series starts after a SUCCEEDED one only; a series that has failed for good is kept, the gate of
+    `execute_handlers_once` finds nothing awakened in it, and the loop only keeps sleeping its interval.
+    A running series is NOT restarted by an idle wait (`timerState` looks at `retries` only). -/
+def timerRun (env : Env) (l : Limits) (interval : Nat) (sharp : Bool) :
+    Int → Rec → List (Raised × Nat × Int) → List Ev
   | _, _, [] => []
-  | now, r, (x, dur) :: rest =>
+  | now, r, (x, dur, idleUntil) :: rest =>
       let t := timerAt now idleUntil
       let r1 := timerState r now t
       if r1.awakened t then
         let a := attemptAt env l t r1 x dur 0
-        .att a :: timerRun env l interval sharp idleUntil (timerNext interval sharp a) a.recAfter rest
+        .att a :: timerRun env l interval sharp (timerNext interval sharp a) a.recAfter rest
       else
-        .idle t r1.finished :: timerRun env l interval sharp idleUntil (timerIdleNext interval sharp r1 t) r1 rest
+        .idle t r1.finished :: timerRun env l interval sharp (timerIdleNext interval sharp r1 t) r1 rest
+
+/-- A script of iterations that all find the same `idleUntil` (an object nobody touches). -/
+def constIdle (idleUntil : Int) (script : List (Raised × Nat)) : List (Raised × Nat × Int) :=
+  script.map (fun e => (e.1, e.2, idleUntil))
+
+/-- The function's part of an iteration script. -/
+def plainScript (script : List (Raised × Nat × Int)) : List (Raised × Nat) :=
+  script.map (fun e => (e.1, e.2.1))
 
 /-- A timer across re-spawns (`match_daemons` / `pause_daemons` stop the task with a reason, a later
     `spawn_daemons` starts a new one from `State.from_scratch()`). A task whose series failed for
     good puts the handler into `memory.forever_stopped` (a6c10de), and `process_spawning_cause` never
     spawns it again: the later tasks do not happen. -/
 def respawnRun (env : Env) (l : Limits) (interval : Nat) (sharp : Bool) :
-    List (Int × List (Raised × Nat)) → List Ev
+    List (Int × List (Raised × Nat × Int)) → List Ev
   | [] => []
   | (t0, script) :: rest =>
-      let evs := timerRun env l interval sharp t0 t0 (fromScratch t0) script
+      let evs := timerRun env l interval sharp t0 (fromScratch t0) script
       evs ++ (if (attempts evs).any (fun a => a.recAfter.failure) then [] else respawnRun env l interval sharp rest)
+
+/-- A daemon or a timer with `initial_delay=`: the task sleeps first and creates its state
+    (`State.from_scratch()`) afterwards: the series' clock (`started`) begins `delay` after the spawn. -/
+def spawnedAt (t0 : Int) (initialDelay : Nat) : Int := t0 + initialDelay
+
+/-- `_daemon` from its spawn at `t0`: the initial delay, then the in-memory loop from scratch. -/
+def daemonRun (env : Env) (l : Limits) (t0 : Int) (initialDelay : Nat) (script : List (Raised × Nat)) : List Attempt :=
+  loopRun env l (spawnedAt t0 initialDelay) (fromScratch (spawnedAt t0 initialDelay)) script
+
+/-- A daemon across re-spawns: a task that was stopped with a reason (filter mismatch, pause) in the
+    middle of its series is spawned again from scratch when the object matches again; a task that
+    ENDED ON ITS OWN — its function returned, or failed for good — is remembered by `_runner`
+    (`stopper.reason is None` ⇒ `memory.forever_stopped`) and `process_spawning_cause` never spawns
+    it again. One element per task: spawn time and what the function does in that task. -/
+def daemonRespawnRun (env : Env) (l : Limits) : List (Int × List (Raised × Nat)) → List Attempt
+  | [] => []
+  | (t0, script) :: rest =>
+      let as := daemonRun env l t0 0 script
+      as ++ (if as.any (fun a => a.recAfter.finished) then [] else daemonRespawnRun env l rest)
 
 /-- The attempts of a list up to and including the first one that finished the record: one series. -/
 def takeSeries : List Attempt → List Attempt
